@@ -48,13 +48,22 @@ pub mod write_trait {
     }
 
     /// futures::io::AsyncWrite / tokio::io::AsyncWrite after R21 (Pin receivers -> &mut self),
-    /// with the same trait-level contract as `Write`, in Poll form: Pending changes nothing.
+    /// with the same trait-level contract as `Write`, in Poll form.
+    /// `wr_inv` is the invariant between operations; `wr_mid(w, buf)` the one while a write of
+    /// `buf` has been started and its completion not yet reported (poll_write returned
+    /// Pending): the caller must then poll again WITH THE SAME BUFFER (the AsyncWrite
+    /// protocol), which is the precondition below.  `wr_sink` is the sequence of bytes whose
+    /// acceptance has been reported to the caller.
     /// `write_all` (AsyncWriteExt, after R2) is the provided method.  ASSUMED: it polls
-    /// `poll_write` on the unwritten rest until everything is accepted or an error is returned.
+    /// `poll_write` on the unwritten rest (same buffer after Pending) until everything is
+    /// accepted or an error is returned.
     pub trait AsyncWrite: Sized {
         spec fn wr_inv(&self, w: World) -> bool;
+        spec fn wr_mid(&self, w: World, buf: Seq<u8>) -> bool;
         spec fn wr_sink(&self, w: World) -> Seq<u8>;
         spec fn wr_step(pre_s: Self, pre: World, post_s: Self, post: World) -> bool;
+        /// the part of wr_step that speaks about the file system only
+        spec fn wr_frame(pre_s: Self, pre: World, post: World) -> bool;
         proof fn wr_step_refl(s: Self, w: World)
             ensures Self::wr_step(s, w, s, w);
         proof fn wr_step_trans(a: Self, wa: World, b: Self, wb: World, c: Self, wc: World)
@@ -62,9 +71,10 @@ pub mod write_trait {
             ensures Self::wr_step(a, wa, c, wc);
 
         fn poll_write(&mut self, cx: &mut crate::shims::std::task::Context<'_>, buf: &[u8], Tracked(w): Tracked<&mut World>) -> (r: crate::shims::std::task::Poll<io::Result<usize>>)
-            requires old(self).wr_inv(*old(w)),
+            requires old(self).wr_inv(*old(w)) || old(self).wr_mid(*old(w), buf@),
             ensures
-                final(self).wr_inv(*final(w)),
+                r is Ready ==> final(self).wr_inv(*final(w)),
+                r is Pending ==> final(self).wr_inv(*final(w)) || final(self).wr_mid(*final(w), buf@),
                 Self::wr_step(*old(self), *old(w), *final(self), *final(w)),
                 r is Ready && r->Ready_0 is Ok ==> r->Ready_0->Ok_0 <= buf@.len()
                     && final(self).wr_sink(*final(w)) == old(self).wr_sink(*old(w)) + buf@.subrange(0, r->Ready_0->Ok_0 as int),
@@ -73,9 +83,12 @@ pub mod write_trait {
         fn poll_flush(&mut self, cx: &mut crate::shims::std::task::Context<'_>, Tracked(w): Tracked<&mut World>) -> (r: crate::shims::std::task::Poll<io::Result<()>>)
             requires old(self).wr_inv(*old(w)),
             ensures
-                final(self).wr_inv(*final(w)),
-                Self::wr_step(*old(self), *old(w), *final(self), *final(w)),
-                final(self).wr_sink(*final(w)) == old(self).wr_sink(*old(w));
+                // a failed flush may leave the writer closed (the async content writer drops its
+                // data when msync fails): then only the frame on the file system is promised
+                Self::wr_frame(*old(self), *old(w), *final(w)),
+                !(r is Ready && r->Ready_0 is Err) ==> final(self).wr_inv(*final(w))
+                    && Self::wr_step(*old(self), *old(w), *final(self), *final(w))
+                    && final(self).wr_sink(*final(w)) == old(self).wr_sink(*old(w));
 
         #[verifier::external_body]
         fn write_all(&mut self, buf: &[u8], Tracked(w): Tracked<&mut World>) -> (r: io::Result<()>)
